@@ -63,6 +63,7 @@ func checkC05(ctx *Ctx) *Result {
 	// the pattern parser rejects nothing the documentation permits
 	r.share(checkC13(ctx), map[string]string{
 		"R13.1":  "documented limits are the constants in use; the lexers' loops are bounded by them (a scheme, host or port of the documented maximal length is still accepted)",
+		"R13.4":  "every accepting path of ParsePattern has passed each documented guard (a defective pattern is a violation that must be reported)",
 		"R13.10": "every rejecting path of ParsePattern is decided by one of the documented defects",
 	}, nil)
 	return r
@@ -899,10 +900,12 @@ func sortedSetAdd(ctx *Ctx, r *Result, rule string) {
 	for _, pa := range paths {
 		var storeElems, sortAt = -1, -1
 		insertedInPlace := false
+		storedKey, sortedKey := "", ""
 		for i, e := range pa.Effects {
 			if e.Kind == "store" && e.Args[0].Op == "faddr" && e.Args[0].Name == "elems" {
 				storeElems = i
 				v := e.Args[1]
+				storedKey = v.Key()
 				switch {
 				case v.Op == "append" && len(v.Args) == 2 && v.Args[0].Key() == "param:set.elems" && v.Args[1].Op == "lit" && len(v.Args[1].Args) == 1 && v.Args[1].Args[0].Key() == "param:e":
 					// appended; must be sorted afterwards
@@ -915,11 +918,16 @@ func sortedSetAdd(ctx *Ctx, r *Result, rule string) {
 			}
 			if e.Kind == "call" && (e.Name == "slices.Sort" || e.Name == "sort.Strings") {
 				sortAt = i
+				if len(e.Args) == 1 {
+					sortedKey = e.Args[0].Key()
+				}
 			}
 		}
 		if storeElems >= 0 {
 			changing++
-			if sortAt < storeElems && !insertedInPlace {
+			// sorted after being stored (through the field), or the very value
+			// that is stored was sorted just before (in a helper, say)
+			if sortAt < storeElems && !insertedInPlace && !(sortAt >= 0 && sortedKey == storedKey) {
 				bad = "elems is extended without being re-sorted afterwards"
 			}
 			if !pa.Has("call:slices.BinarySearch(param:set.elems, param:e)#1", false) {
@@ -935,7 +943,15 @@ func sortedSetAdd(ctx *Ctx, r *Result, rule string) {
 	if f2 := ctx.P.Func(pkgUtil, "(*Set).Add"); f2 != nil {
 		x2 := ctx.P.NewExec(nil)
 		ps := x2.Summarize(f2)
-		good := len(ps) == 1 && len(ps[0].Effects) == 1 && ps[0].Effects[0].Name == "(*util.SortedSet).Add"
+		var effs []Effect
+		if len(ps) == 1 {
+			for _, e := range ps[0].Effects {
+				if e.Kind != "enter" { // (markers of inlined forwarding wrappers)
+					effs = append(effs, e)
+				}
+			}
+		}
+		good := len(ps) == 1 && len(effs) == 1 && effs[0].Name == "(*util.SortedSet).Add"
 		r.check(good, rule, funcName(f2)+" delegates to SortedSet.Add", ctx.P.Pos(f2.Pos()), "Set.Add is not a plain delegation", len(ps))
 	}
 }
